@@ -219,3 +219,38 @@ pub fn dump_log(log: &[Event]) {
         eprintln!("{:>5} {:>8}us srv={} conn={} {}", e.seq, e.t_us, if e.server == usize::MAX { -1 } else { e.server as i64 }, e.conn, d);
     }
 }
+
+/// Measures how late the harness' own (single-threaded) runtime runs its timers. Latency oracles subtract the lag observed
+/// during a request, so that time the *harness* spent busy (parsing megabytes in a mock backend, a starved CPU) is not blamed
+/// on the pooler.
+pub struct LagMonitor {
+    samples: Arc<std::sync::Mutex<Vec<(u64, u64)>>>,
+    stop: Arc<std::sync::atomic::AtomicBool>,
+}
+
+impl LagMonitor {
+    pub fn start(t0: std::time::Instant) -> LagMonitor {
+        let samples: Arc<std::sync::Mutex<Vec<(u64, u64)>>> = Arc::new(std::sync::Mutex::new(vec![]));
+        let stop = Arc::new(std::sync::atomic::AtomicBool::new(false));
+        let (s2, st2) = (samples.clone(), stop.clone());
+        tokio::spawn(async move {
+            let tick = std::time::Duration::from_millis(4);
+            while !st2.load(std::sync::atomic::Ordering::Relaxed) {
+                let a = std::time::Instant::now();
+                tokio::time::sleep(tick).await;
+                let late = a.elapsed().saturating_sub(tick);
+                if late.as_micros() > 1500 {
+                    s2.lock().unwrap().push((t0.elapsed().as_micros() as u64, late.as_micros() as u64));
+                }
+            }
+        });
+        LagMonitor { samples, stop }
+    }
+    /// total lateness (ms) of the timer ticks that completed between the two instants (µs since t0), plus one tick after
+    pub fn lag_ms_between(&self, from_us: u64, to_us: u64) -> u64 {
+        self.samples.lock().unwrap().iter().filter(|(t, _)| *t >= from_us && *t <= to_us + 50_000).map(|(_, l)| *l).sum::<u64>() / 1000
+    }
+    pub fn stop(&self) {
+        self.stop.store(true, std::sync::atomic::Ordering::Relaxed);
+    }
+}
